@@ -103,7 +103,7 @@ func TestC04(t *testing.T) {
 	}
 
 	// (c) parrots and fingerprinted copies
-	conns := mon.Pick(128, 400)
+	conns := mon.Pick(128, 2000)
 	type target struct {
 		name string
 		id   tls.ClientHelloID
